@@ -173,8 +173,11 @@ func ruleHits(e syntax.Expr, hits map[string]int) {
 					return
 				}
 				if head := strings.TrimSuffix(y, x); len(head) <= utf8.UTFMax && utf8.RuneCountInString(head) == 1 {
-					hits["factor-suffix:"+order]++
-					return
+					if order == "longer-first" {
+						hits["factor-suffix:"+order]++
+						return
+					}
+					hits["factor-suffix-blocked:"+order]++
 				}
 			}
 		}
@@ -283,7 +286,7 @@ var ruleInstances = func() map[string][]string {
 		"fold-below-threshold": {"aaa", `\d\d`, "..."},
 		"alt-chars-to-class": {"a|b|c", "x|y", "a|❤|b"}, "alt-chars-blocked:class-meta": {"a|-|c", "a|]", "^|a", "a|["},
 		"factor-prefix:longer-first": {"foo|fo", "abcd|abc", "ab❤|ab"}, "factor-prefix:shorter-first": {"fo|foo", "http|https", "ab|ab❤"},
-		"factor-suffix:longer-first": {"xfo|fo", "xabc|abc", "❤ab|ab"}, "factor-suffix:shorter-first": {"fo|xfo", "abc|xabc", "hb|hhb", "ab|❤ab"},
+		"factor-suffix:longer-first": {"xfo|fo", "xabc|abc", "❤ab|ab"}, "factor-suffix-blocked:shorter-first": {"fo|xfo", "abc|xabc", "hb|hhb", "ab|❤ab"},
 		"range-enum:0": {"[a-a]", "[x-xb]"}, "range-enum:1": {"[a-b]", "[0-1x]"}, "range-enum:2": {"[a-c]", "[x-zq]"},
 		"range-enum-blocked:dash": {"[+--]", "[--.]", "[,-.]", "[+--x]"},
 		"print:flag-group": {"(?i:ab)", "(?s:.)", "(?U:a+)", "(?m:^a$)", "(?i-s:a.)"}, "print:capture": {"(a)", "(ab|c)"}, "print:named-capture": {"(?P<n>a)", "(?P<q>ab)"},
